@@ -100,7 +100,7 @@ fn o_fault(c: &FaultCase, st: &mut Stats) -> Result<(), String> {
 
 fn fuzz_seed_cases(target: &'static str) -> Vec<crate::fuzzrun::FuzzInput> {
     let root = std::path::PathBuf::from(std::env::var("VERIF_ROOT").unwrap_or_else(|_| "/verif".into()));
-    crate::fuzzrun::seed_corpus(&root, target)
+    crate::fuzzrun::seed_corpus(&root, target, "C01")
 }
 
 fn extra(ctx: &mut crate::engine::Ctx) -> serde_json::Value {
